@@ -8,8 +8,8 @@ export GOFLAGS=-mod=mod GOPROXY=off
 # disk guard: builds against scratch worktrees fill the go build cache (one set of objects per path)
 if [ "$(df --output=avail -BG / | tail -1 | tr -dc 0-9)" -lt 40 ]; then go clean -cache >/dev/null 2>&1; fi
 # one fixed scratch worktree (stable path = go build cache hits), serialised by a lock
-exec 9>/tmp/mutwt.lock; flock 9
-wt=/tmp/mutwt
+wt=${MUTWT:-/tmp/mutwt}
+exec 9>$wt.lock; flock 9
 if [ ! -d $wt/.git ] && [ ! -f $wt/.git ]; then git -C /repo worktree prune; git -C /repo worktree add --detach -q $wt HEAD || exit 2; fi
 git -C $wt checkout -q --detach $(git -C /repo rev-parse HEAD) && git -C $wt reset -q --hard && git -C $wt clean -qfd
 trap 'git -C $wt reset -q --hard; git -C $wt clean -qfd; rm -f /tmp/mut.$$.mod /tmp/mut.$$.sum /verif/bin/verif-mut.$$' EXIT
@@ -19,7 +19,8 @@ sed "s#=> /repo#=> $wt#" /verif/harness/go.mod > /tmp/mut.$$.mod; cp /verif/harn
 tags=verif; race=""; [ "$id" = C17 ] && race="-race"
 (cd /verif/harness && go build $race -tags $tags -modfile=/tmp/mut.$$.mod -o /verif/bin/verif-mut.$$ ./cmd/verif) || exit 2
 mkdir -p /tmp/mutverif.$$; cp /verif/known_findings.json /tmp/mutverif.$$/
-/verif/bin/verif-mut.$$ check $id --tier $tier --seed $seed --verif /tmp/mutverif.$$ > /tmp/mutout.$$ 2>&1
+/verif/bin/verif-mut.$$ check $id --tier $tier --seed $seed --verif /tmp/mutverif.$$ ${MUT_ARGS:-} > /tmp/mutout.$$ 2>&1
+[ -n "${MUT_KEEPBIN:-}" ] && cp /verif/bin/verif-mut.$$ "$MUT_KEEPBIN"
 grep "^check\|^VIOLATION" /tmp/mutout.$$ | sed 's/replay=.*//' | cut -c1-220
 grep "^violation" /tmp/mutout.$$ | sed 's/replay=.*//' | awk '{ $2=""; print }' | cut -c1-220 | sort | uniq -c | sort -rn | head -${MUT_LINES:-12}
 [ -n "${MUT_KEEP:-}" ] && cp /tmp/mutout.$$ "$MUT_KEEP"
